@@ -233,6 +233,9 @@ def run(tier, repo=None, tag="repo"):
     try:
         apply(F, Sink(rep))
         er_at_most_one(F, Sink(rep))
+        # RW's premise for MFI "the two totals are sums of the non-negative flows in the window" is MFI's step specification (C03)
+        from rules_spec import run_units
+        run_units("C07", ["MoneyFlowIndex"], None, rep, F, lambda kind: "RW")
         # AP's premise "window minimum <= x <= window maximum" is the contract of Minimum / Maximum: re-established here with C01's rules
         import rules_c01
         from rules_c09 import _Map
@@ -251,5 +254,5 @@ def run(tier, repo=None, tag="repo"):
                        "analysis of the rational normal form), affine position between window extremes, convex combination. EfficiencyRatio <= 1 by the triangle inequality, whose hypotheses (chain of "
                        "successive differences from the reference to the input) are checked (ER1). NOT decided: MFI's conditioning clause, the 1e-9 rounding slack")
     rep.assumptions = ["finite positive prices / valid bars, volume >= 0, non-zero denominator (the property's premises)",
-                       "Minimum / Maximum return the extremes of the window that contains the value just fed (C01-I6/I7, re-established in this check)", "MFI running totals non-negative (conditioning premise of the property)"]
+                       "Minimum / Maximum return the extremes of the window that contains the value just fed (C01-I6/I7, re-established in this check)", "MFI: in exact arithmetic the totals are sums of the window's non-negative flows (its step specification, re-checked here); their floating-point residue is the property's own conditioning clause"]
     return rep
